@@ -141,3 +141,117 @@ func VH_C01_witness_array_var() {
 	}
 	vreach("end")
 }
+
+// ---- O2: state bookkeeping of rules --------------------------------------------------
+//
+// Unit: IndexedState/LinearState.{Add,Rem,Clear,FindRules} (add, rem, indexRule,
+// unindexRule, GetRulePatterns, ExtractRule, PrepareFact, doFindRules, expire) over the
+// real MemStorage. History <= 3 of {add rule, add plain fact, Rem, Clear} with ids chosen
+// from 2 distinct symbolic ids (re-use = overwrite) and symbolic when-leaves, then one
+// symbolic event.
+//
+//verif:bounds history <= 3; when-patterns {K:L} / {a:L,b:L} with K in {a,b}; events
+// {K:S} / {a:S,b:S}; leaves: strings len<=6 or integral numbers.
+
+type vhRefRule struct {
+	id     string
+	when   map[string]interface{} // nil: a plain fact is stored under id
+	live   bool
+}
+
+func vhRuleFact(when map[string]interface{}) Map {
+	return Map{"rule": map[string]interface{}{
+		"when":   map[string]interface{}{"pattern": when},
+		"action": map[string]interface{}{"code": "1"},
+	}}
+}
+
+func vhRefSet(ref []*vhRefRule, id string, when map[string]interface{}) []*vhRefRule {
+	for _, r := range ref {
+		r.live = vand(r.live, id != r.id)
+	}
+	return append(ref, &vhRefRule{id: id, when: when, live: true})
+}
+
+func vhC01Op(env *vhEnv, ref []*vhRefRule, step, op int) []*vhRefRule {
+	pre := "s" + string(rune('0'+step))
+	switch op {
+	case 0, 1: // add a rule with a when of shape op
+		id := vhIdD(vchoose(2))
+		when := map[string]interface{}(vhPatternC(pre, op))
+		_, err := env.state.Add(env.ctx, id, vhRuleFact(when))
+		vassert(err == nil, "add-rule-succeeds")
+		return vhRefSet(ref, id, when)
+	case 2: // add a plain fact (possibly over a rule)
+		id := vhIdD(vchoose(2))
+		_, err := env.state.Add(env.ctx, id, vhFactC(pre, 0))
+		vassert(err == nil, "add-fact-succeeds")
+		return vhRefSet(ref, id, nil)
+	case 3: // remove
+		id := vhIdD(vchoose(2))
+		_, err := env.state.Rem(env.ctx, id)
+		vassert(err == nil, "rem-succeeds")
+		for _, r := range ref {
+			r.live = vand(r.live, id != r.id)
+		}
+		return ref
+	case 4: // clear
+		vassert(env.state.Clear(env.ctx) == nil, "clear-succeeds")
+		for _, r := range ref {
+			r.live = false
+		}
+		return ref
+	case 5:
+		return ref
+	}
+	vassume(false)
+	return ref
+}
+
+// VH_C01_rules: after the history, FindRules(event) neither fails nor loses a live
+// matching rule, and everything it returns is a live rule with its current body; after
+// the dispatcher's re-match it is exactly the live matching rules.
+func VH_C01_rules(kind, op1, op2, op3, eshape int) {
+	env := vhNewEnv(kind)
+	var ref []*vhRefRule
+	ref = vhC01Op(env, ref, 1, op1)
+	ref = vhC01Op(env, ref, 2, op2)
+	ref = vhC01Op(env, ref, 3, op3)
+	ev := vhFactC("e", eshape)
+	found, err := env.state.FindRules(env.ctx, ev)
+	vassert(err == nil, "findrules-no-error")
+	if err != nil {
+		vreach("end")
+		return
+	}
+	// completeness
+	for _, r := range ref {
+		if r.when == nil {
+			continue
+		}
+		bss, merr := Matches(env.ctx, r.when, map[string]interface{}(ev))
+		vassume(merr == nil)
+		if len(bss) == 0 {
+			continue
+		}
+		in := false
+		for id := range found {
+			in = vor(in, id == r.id)
+		}
+		vassert(vimplies(r.live, in), "live-matching-rule-found")
+	}
+	// soundness: every returned id is a live rule; its body is the current one
+	for id, body := range found {
+		ok := false
+		for _, r := range ref {
+			if r.when == nil {
+				continue
+			}
+			w, _ := body["when"].(map[string]interface{})
+			cur := w != nil && vdeepEq(w["pattern"], r.when)
+			ok = vor(ok, vand(vand(r.live, id == r.id), cur))
+		}
+		vassert(ok, "returned-id-is-live-rule-with-current-body")
+	}
+	vreach("end")
+}
